@@ -16,7 +16,9 @@ def gen_cases(rng, n):
     base = [t for t in C03.corpus_files() if "#ruledef" in t or "#d" in t]
     cases = []
     for i in range(n):
-        prog = gen_cascade.gen_any(rng) if rng.random() < 0.8 else rng.choice(base)
+        r = rng.random()
+        # asm blocks with several moving labels get their own share: a stale inner label is only visible there
+        prog = gen_cascade.gen_block_program(rng) if r < 0.35 else gen_cascade.gen_program(rng) if r < 0.8 else rng.choice(base)
         for b in rng.sample([1, 2, 3, 4, 5, 6, 8, 10, 12], 3):
             cases.append((prog, b, rng.random() < 0.75, rng.random() < 0.75))
     return cases
